@@ -34,7 +34,7 @@ def _case(rng):
         r = rng.random()
         n = rng.randint(1, 7)
         if r < 0.45: ops.append({'op': 'sample', 'n': n, 'shuffle': rng.choice([0, 0, 5]), 'override': rng.random() < 0.3})
-        elif r < 0.85: ops.append({'op': 'crop', 'n': n, 'bs': rng.randint(1, n + 1), 'shuffle': rng.choice([0, 0, 5])})
+        elif r < 0.85: ops.append({'op': 'crop', 'n': n, 'bs': rng.randint(1, n + 1), 'shuffle': rng.choice([0, 0, 5]), 'override': rng.random() < 0.2})
         elif r < 0.92: ops.append({'op': 'new'})
         else: ops.append({'op': 'switch'})
     if not any(o['op'] not in ('new', 'switch') for o in ops): ops.append({'op': 'sample', 'n': 2, 'shuffle': 0, 'override': False})
@@ -67,6 +67,18 @@ def cases(ctx):
 search_cases = cases
 
 
+def _defaults(sw, a):
+    """the sampler's own choices; for the first argument the last value is kept OUT of them (only an override draws it)"""
+    v = sw['values'][a]
+    return v[:-1] if a == sw['case_args'][0] and len(v) >= 2 else v
+
+
+def _override(sw, a):
+    """an override for one run: a value the defaults do not contain, so that it is seen if it lingers into a later run"""
+    v = sw['values'][a]
+    return v[-1:] if len(v) >= 2 else v[:1]
+
+
 class Choice:
     """a picklable user callable returning one of the allowed values"""
     def __init__(self, vals): self.vals = list(vals)
@@ -87,7 +99,7 @@ def run_real(c, ctx):
         def mk():
             r = xyz.Runner(f, var_names=desc['names'], fn_args=sw['case_args'], constants=copy.deepcopy(desc['constants']) or None,
                            resources=copy.deepcopy(desc['resources']) or None, attrs=copy.deepcopy(desc['attrs']) or None)
-            return xyz.Sampler(r, data_name=data, default_combos={a: sw['values'][a] for a in sw['case_args']}, engine=c['engine'])
+            return xyz.Sampler(r, data_name=data, default_combos={a: _defaults(sw, a) for a in sw['case_args']}, engine=c['engine'])
         smp = mk()
         other = None
         obs = []
@@ -105,13 +117,15 @@ def run_real(c, ctx):
                         combos = None
                         if op.get('override'):
                             a = sw['case_args'][0]
-                            combos = {a: Choice(sw['values'][a][:1])}
+                            ov = _override(sw, a)
+                            combos = {a: Choice(ov) if op['n'] % 2 else list(ov)}
                         last = smp.sample_combos(op['n'], combos=combos, verbosity=0, **kw)
                         o['last'] = labelled.canon_df(last); o['last_is'] = smp.last_df is last
                     else:
                         crop = smp.Crop(name='t%d' % i, parent_dir=d, batchsize=op['bs'])
                         crop.shuffle = op.get('shuffle') or False
-                        crop.sow_samples(op['n'], verbosity=0)
+                        a0 = sw['case_args'][0]
+                        crop.sow_samples(op['n'], verbosity=0, **({'combos': {a0: list(_override(sw, a0))}} if op.get('override') else {}))
                         crop.grow_missing(verbosity=0)
                         last = crop.reap()
                         o['last'] = labelled.canon_df(last); o['last_is'] = smp.last_df is last
@@ -178,7 +192,7 @@ def oracle(c, obs):
         if e: return f'run {j}: {e}'
         for r in new:
             for a in sw['case_args']:
-                allowed = [canon(x) for x in (sw['values'][a][:1] if (op.get('override') and a == sw['case_args'][0]) else sw['values'][a])]
+                allowed = [canon(x) for x in (_override(sw, a) if (op.get('override') and a == sw['case_args'][0]) else _defaults(sw, a))]
                 if r.get(a) not in allowed: return f'run {j}: argument {a}={r.get(a)!r} is not among the allowed choices'
         if not o['last_is']: return f'run {j}: last_df is not the returned table'
         mem = o['mem']
